@@ -120,6 +120,26 @@ def replay(case):
                     break
             if bad:
                 continue
+            if name in ('lie', 'strang'):
+                # second use of the caller's component arrays: integrated once, then S and L doubled in place and the step halved
+                # (h (S x I + L x M) is the same, so is every state)
+                S2, L2, I2, M2 = _lib_args()
+                f(S2, L2, I2, M2, x0, h, ns, threshold=0, max_rank=200, normalize=0)
+                seen = set()
+                for part in (S2, L2):
+                    for a in (part if isinstance(part, list) else [part]):
+                        if id(a) not in seen:
+                            seen.add(id(a))
+                            a *= 2
+                sol3 = f(S2, L2, I2, M2, x0, h / 2, ns, threshold=0, max_rank=200, normalize=0)
+                w3 = x0d.astype(complex)
+                for k in range(1, ns + 1):
+                    w3 = P @ w3
+                    g3 = contract(sol3[k].cores).reshape(-1) if not metadata_problem(sol3[k]) else None
+                    if g3 is None or g3.shape != w3.shape or np.linalg.norm(g3 - w3) > 1e-9 * np.linalg.norm(w3):
+                        out.append(('%s:second-use:%s' % (name, kind), 'component arrays S and L doubled in place between two runs, step halved: state '
+                                    '%d differs from the product of local propagators (d=%d n=%d hom=%r)' % (k, d, n, cfg['hom'])))
+                        break
             # convergence order
             T = h * ns
             exact = sl.expm(T * G) @ x0d
